@@ -6,11 +6,12 @@ pub mod c05;
 pub mod c08;
 pub mod c09;
 pub mod c10;
+pub mod c11;
 pub mod c12;
 pub mod c13;
 pub mod c14;
 pub mod c16;
 
 pub fn all() -> Vec<Property> {
-    vec![c01::property_c01(), c01::property_c02(), c01::property_c03(), c05::property_c05(), c05::property_c18(), c08::property(), c09::property(), c10::property(), c12::property(), c13::property(), c14::property(), c16::property()]
+    vec![c01::property_c01(), c01::property_c02(), c01::property_c03(), c05::property_c05(), c05::property_c18(), c08::property(), c09::property(), c10::property(), c11::property_c11(), c11::property_c17(), c12::property(), c13::property(), c14::property(), c16::property()]
 }
